@@ -174,6 +174,31 @@ def gen_wrap_streams(rng, count, end_styles=('marker', 'sized')):
         res.append(meta)
     return res
 
+def gen_costly_literal_streams(rng, count):
+    """streams with a literal that costs about six input bytes: EVERY node on its path through the literal tree has been trained
+    towards the opposite bit (phases of identical literals that differ from it in one bit, deepest node first, so that a later
+    phase never revisits an earlier phase's node).  lc = lp = 0, so there is a single literal context.  Same dict format as
+    gen_lzma_streams."""
+    reqs, metas = [], []
+    for k in range(count):
+        lc, lp, pb = 0, 0, rng.choice([0, 2, 4])
+        y = rng.below(256)
+        pbld = ProgBuilder(4096)
+        for depth in range(7, -1, -1):
+            t = y ^ (1 << (7 - depth))
+            for _ in range(rng.range(230, 300)): pbld.lit(t)
+        pbld.lit(y)
+        for _ in range(rng.range(0, 6)): pbld.lit(rng.choice([y, y ^ 0x80, rng.below(256)]))
+        style = rng.choice(['marker', 'sized'])
+        reqs.append('ref_lzma lc=%d lp=%d pb=%d dict=4096 size=%s delta=0 prog=%s' % (lc, lp, pb, 'none' if style == 'marker' else str(pbld.n), pbld.text(style == 'marker')))
+        metas.append({'props': (lc, lp, pb), 'dict': 4096, 'style': style, 'n': pbld.n, 'kinds': dict(pbld.kinds), 'big': False, 'nsyms': len(pbld.syms), 'costly_literal': True})
+    res = []
+    for enc, meta in zip(ref_encode(reqs), metas):
+        if enc is None: raise InfraError('reference encoder rejected a costly-literal program')
+        meta = dict(meta); meta['bytes'], meta['out'] = enc; meta['ref'] = 'literal tree trained against the literal that follows'
+        res.append(meta)
+    return res
+
 def lzma_oracle_exact(c):
     """C01-style oracle: the implementation must succeed and deliver exactly the format-defined bytes"""
     exp = c['meta_full']['out']
@@ -442,6 +467,20 @@ def run_C02(ck):
     streams = gen_lzma2_streams(rng, n, bigs)
     mp = max_packed_stream(rng)
     if mp: streams.append(mp); ck.count('chunk_with_packed_size_0xFFFF')
+    # tiny continuation chunks: after a chunk that trained the model, a chunk of one or two cheap symbols has a payload of exactly
+    # the five coder init bytes (compressed-size field 4) - the smallest legal compressed chunk
+    treqs = []
+    for k in range(10 if ck.tier == 'quick' else 60):
+        lc, lp, pbits = rand_props(rng, lzma2=True)
+        x = rng.below(256)
+        first = 'Z3:%d,%d,%d:0:%s' % (lc, lp, pbits, '.'.join(['L%d' % x] * rng.range(40, 400) if rng.chance(1, 2) else ['L%d' % x, 'M1,%d' % rng.range(20, 273)]))
+        tail = rng.choice(['S', 'S.S', 'R0,2', 'L%d' % x, '.'.join(['L%d' % x] * rng.range(1, 20)), 'M1,%d' % rng.range(2, 9)])
+        treqs.append('ref_lzma2 chunks=%s/Z%d:-:0:%s' % (first, rng.choice([0, 0, 1]), tail))
+    for enc, rq in zip(ref_encode(treqs), treqs):
+        if enc is None: continue
+        pl = [w['payload_len'] for w in walk_lzma2(enc[0]) if w['kind'] == 'lzma'][-1]
+        streams.append({'bytes': enc[0], 'out': enc[1], 'stats': {'Z3': 1, 'Ztiny': 1}, 'big': None, 'ref': rq[:300]})
+        ck.count('tiny_chunk_payload_%d' % pl if pl <= 6 else 'tiny_chunk_payload_more')
     cases = []
     for s in streams:
         for st, v in s['stats'].items(): ck.count('chunk_' + st, v)
@@ -482,8 +521,11 @@ def gen_xz_files(rng, count, lz2_pool, checks=(0, 1, 4)):
         nb = rng.choice([0, 1, 1, 1, 2, 3, 4])
         check = rng.choice(list(checks))
         blocks = []
+        all_empty = nb > 0 and rng.chance(1, 8)            # files whose blocks are all empty (LZMA2 stream 00)
         for _ in range(nb):
             s = rng.choice(lz2_pool)
+            if all_empty or rng.chance(1, 8):
+                s = {'bytes': b'\x00', 'out': b''}              # an empty block: legal, with or without the optional size fields (unpacked size 0)
             width = rng.choice([None, None, None, 2, 3, 5, 9])
             hp = rng.choice([0, 0, 0, 1, 2, 7, 40, 200, 'max']) if width is None else rng.choice([0, 1])
             wp, wu = rng.chance(1, 2), rng.chance(1, 2)
@@ -708,6 +750,11 @@ def run_C17(ck):
             else:
                 if ch['control'] >= 0xC0:
                     add('props_ge_225', b[:o + 5] + bytes([rng.range(225, 255)]) + b[o + 6:], wrap)
+                    if b[o + 5] + 225 < 256:
+                        add('props_plus_225', b[:o + 5] + bytes([b[o + 5] + 225]) + b[o + 6:], wrap)     # the real byte modulo 225
+                    if b[o + 5] == 0:
+                        for bad_ in (0xFF, 0xE1, 0xF0):                                                    # a sentinel / mask could turn these into lc=lp=pb=0
+                            add('props_invalid_for_000', b[:o + 5] + bytes([bad_]) + b[o + 6:], False)
                     bad = rng.choice([pb_ * 45 + lp_ * 9 + lc_ for pb_ in range(5) for lp_ in range(5) for lc_ in range(9) if lc_ + lp_ > 4])
                     add('props_lc_lp_gt_4', b[:o + 5] + bytes([bad]) + b[o + 6:], wrap)
                 pk = ch['payload_len']
@@ -738,6 +785,17 @@ def run_C17(ck):
         for m in (1, 2, 3, 4):
             hdr2 = bytearray(b[ch['off']:ch['off'] + ch['hdr_len']]); hdr2[3:5] = struct.pack('>H', m - 1)
             add('packed_below_coder_init', b[:ch['off']] + bytes(hdr2) + b[ch['off'] + ch['hdr_len']:], False)
+    # first chunk with properties lc=lp=pb=0 (byte 0x00), the byte replaced by values a sentinel or a mask could map back to 0
+    preqs = []
+    for k in range(6 if ck.tier == 'quick' else 30):
+        pb = ProgBuilder(None)
+        for _ in range(rng.range(1, 15)): pb.random_sym(rng, 2)
+        preqs.append('ref_lzma2 chunks=Z3:0,0,0:0:%s' % pb.text())
+    for enc in ref_encode(preqs):
+        if enc is None: continue
+        b = enc[0]
+        for bad_ in (0xFF, 0xE1, 0xF0, 0x80 | 0x61):
+            add('props_invalid_for_000', b[:5] + bytes([bad_]) + b[6:], False)
     # fully consistent big chunks whose control byte loses bit 7: 0xFF -> 0x7F (2 MiB band), 0xE1.. -> 0x61.. etc.
     breqs = []
     for size in ([rng.range(2031617, 2097152), rng.range(65537, 131072)] if ck.tier == 'quick' else
@@ -836,6 +894,10 @@ def run_C18(ck):
                 nb2 = list(blocks)
                 nb2[i] = XzBlock(b0.payload, b0.content, with_packed=b0.with_packed, with_unpacked=b0.with_unpacked, flags_extra=bit)
                 add('block_flag_reserved=%#x' % bit, xz_file(nb2, f['check'], mb_width=f['mbw']))
+        if nb and rng.chance(1, 2):
+            eb = [XzBlock(b'\x00', b'', with_packed=rng.chance(1, 2), with_unpacked=rng.chance(1, 2)) for _ in range(nb)]
+            for cid in (10, rng.choice([2, 3, 5, 9, 11, 15])):
+                add('check_id=%d_empty_blocks' % cid, xz_file(eb, cid))
         other = rng.choice(files)
         add('second_stream', f['bytes'] + other['bytes'])
         for padlen in (4, 8, 12, 16):
@@ -986,10 +1048,11 @@ def run_C05(ck):
     quick = ck.tier == 'quick'
     streams = gen_lzma_streams(rng, 50 if quick else 400, big_every=25, max_syms=40) + gen_wrap_streams(rng, 2 if quick else 10, ('marker', 'sized', 'sized+marker'))
     cases = []
-    for s in streams:
-        for kind, data, opt in lzma_variants(rng, s):
+    costly = gen_costly_literal_streams(rng, 3 if quick else 20)
+    for s in streams + costly:
+        for kind, data, opt in (lzma_variants(rng, s) if not s.get('costly_literal') else [('valid', s['bytes'], 'rfh')]):
             hows = ['whole', 'bytes', 'single', 'early', 'random', 'random'] if len(data) < 400 else ['whole', 'single', 'early', 'random']
-            if len(data) <= 40 and rng.chance(1, 3):
+            if s.get('costly_literal') or (len(data) <= 40 and rng.chance(1, 3)):
                 cuts = [[c, len(data) - c] for c in range(len(data) + 1)]
             else:
                 cuts = [chunkings(rng, len(data), h) for h in hows]
@@ -1658,6 +1721,23 @@ def run_C14(ck):
         fresh = {'line': 'raw_lzma lc=%d lp=%d pb=%d dict=%d size=%s ops=d:%s' % (lc, lp, pb, d, fin_size, hx(probe)), 'meta': {'api': 'lzma', 'fresh': True}}
         reused['fresh'] = fresh
         cases += [reused, fresh]; ck.count('lzma_histories')
+    # ---- a decode that fails inside its first symbols (input cut 5..9 bytes into the payload: some probability cells are already
+    #      updated when the error strikes), then reset, then the complete stream: must equal a fresh decoder
+    for g in range(8 if quick else 60):
+        lc, lp, pb = rand_props(rng)
+        pbld = random_program(rng, rng.range(3, 40), 4096, lit_bias=2)
+        e = ref_encode(['ref_payload lc=%d lp=%d pb=%d window=4096 prog=%s' % (lc, lp, pb, pbld.text(True))])[0]
+        if e is None: raise InfraError('ref encoder rejected a C14 program')
+        b = e[0]
+        fresh = {'line': 'raw_lzma lc=%d lp=%d pb=%d dict=4096 size=none ops=d:%s' % (lc, lp, pb, hx(b)), 'meta': {'api': 'lzma', 'fresh': True}}
+        cases.append(fresh)
+        # one history per cut (a later, longer truncated decode could complete a symbol and thereby hide what the first one left behind)
+        for c_ in (5, 6, 7, rng.range(8, max(8, len(b) - 1))):
+            if c_ >= len(b): continue
+            ops = ['d:%s' % hx(b[:c_]), rng.choice(['r', 'rn'])] * rng.choice([1, 1, 2])
+            reused = {'line': 'raw_lzma lc=%d lp=%d pb=%d dict=4096 size=none ops=%s' % (lc, lp, pb, ';'.join(ops + ['d:%s' % hx(b)])), 'meta': {'api': 'lzma', 'history': ['cut_at_%d' % c_], 'final_reset': 'r'}}
+            reused['fresh'] = fresh
+            cases.append(reused); ck.count('lzma_failed_first_symbol_then_reset')
     # ---- cell sweep: history and probe both visit (nearly) every probability cell - all distances 1..300 (every pos_slot,
     #      every reverse-tree cell of the distance coder incl. the last one, the align bits), lengths of all three length
     #      classes, reps, short reps and literals in all automaton states - so that ANY cell left stale by reset shows
@@ -1740,13 +1820,13 @@ def run_C15(ck):
     rng = Rng(ck.seed).fork('C15')
     quick = ck.tier == 'quick'
     cases = []
-    for s in gen_lzma_streams(rng, 30 if quick else 250, big_every=10, end_styles=('marker', 'sized'), max_syms=60) + gen_wrap_streams(rng, 2 if quick else 12):
+    for s in gen_lzma_streams(rng, 30 if quick else 250, big_every=10, end_styles=('marker', 'sized'), max_syms=60) + gen_wrap_streams(rng, 2 if quick else 12) + gen_costly_literal_streams(rng, 2 if quick else 12):
         b = s['bytes']
         size = 'none' if s['style'] == 'marker' else str(s['n'])
         opt, hdr = rng.choice([('rfh', 13), ('rfh', 13), ('rhp:' + size, 13), ('up:' + size, 5), ('up:' + size, 5)])
         if hdr == 5: b = b[:5] + b[13:]
         elif opt.startswith('rhp'): b = b[:5] + junk_field(rng) + b[13:]
-        cuts = range(len(b) + 1) if len(b) < 60 and not quick else sorted(set([0, 1, 4, 5, 9, 10, 12, 13, 17, 18, 19, len(b)] + [rng.range(0, len(b)) for _ in range(8)]))
+        cuts = range(len(b) + 1) if (len(b) < 60 and not quick) or s.get('costly_literal') else sorted(set([0, 1, 4, 5, 9, 10, 12, 13, 17, 18, 19, len(b)] + [rng.range(0, len(b)) for _ in range(8)]))
         for cut in cuts:
             if cut > len(b): continue
             P = b[:cut]
